@@ -191,3 +191,9 @@ package types
 //@ props C09
 //@ trusted
 //@ ensures err == NoErr ==> timeout >= 0 && repeatedTotal >= -1
+
+// ---------------------------------------------------------------- identifiers (C18); byte-level contracts are in the lemmas of layer K
+//@ func GenerateRequestID
+//@ props C18
+//@ theory coins keys bytes
+//@ ensures [C18] exact_layout: result == mkRID(requestContextID, requestContextBatchCounter, requestHeight, batchRequestIndex)
